@@ -147,7 +147,7 @@ def run_cvc5(smt2, timeout_ms):
         f.write("(set-logic ALL)\n" + smt2)
         path = f.name
     try:
-        p = subprocess.run(["/usr/bin/cvc5", "--lang=smt2", f"--tlimit={timeout_ms}", path], capture_output=True, text=True, timeout=timeout_ms / 1000 + 10)
+        p = subprocess.run(["/usr/bin/cvc5", "--lang=smt2", "--strings-exp", f"--tlimit={timeout_ms}", path], capture_output=True, text=True, timeout=timeout_ms / 1000 + 10)
         out = (p.stdout or "").strip().splitlines()
         return out[0] if out else "unknown"
     except Exception:
@@ -161,7 +161,7 @@ def discharge(o, want_smt2=False, both=False):
     if o.kind == "unclassified":
         return {"name": o.name, "kind": o.kind, "line": o.line, "backend": "frame", "time_s": 0.0, "status": "undecided", "reason": "receiver cannot be classified by the ownership rules"}
     s_ = z3.Solver()
-    s_.set("timeout", Z3_TIMEOUT_MS)
+    s_.set("timeout", getattr(o, "z3_timeout_ms", None) or Z3_TIMEOUT_MS)      # string-theory obligations give z3 a short budget and go to cvc5
     s_.set("random_seed", 7)
     s_.add(*GLOBAL_AXIOMS)
     s_.add(*o.hyps)
